@@ -58,7 +58,7 @@ def handle (op : String) : Option Handler :=
       pure (Json.mkObj [("sizes_match_table", h.sizesMatchTable), ("attrs_sorted", h.attrsSorted),
         ("union_fields_plain", h.unionFieldsPlain), ("field_callbacks_counted", h.fieldCallbacksCounted),
         ("blobs_aligned", h.blobsAligned), ("no_discriminated_union", h.noDiscriminatedUnion),
-        ("boxed_funcs_unset", h.boxedFuncsUnset), ("n_boxed", h.nBoxed),
+        ("n_boxed", h.nBoxed),
         ("deprecated_unions", h.deprecatedUnions), ("n_objects", h.nObjects),
         ("n_odd_interface_objects", h.nOddInterfaceObjects), ("n_embedded_fields", h.nEmbeddedFields),
         ("n_attributes", h.nAttributes)])
